@@ -13,6 +13,7 @@ package c18
 
 import (
 	"bytes"
+	"context"
 	"fmt"
 	"regexp"
 	"runtime"
@@ -29,6 +30,8 @@ import (
 
 	proxyv1alpha1 "github.com/kubewharf/kubegateway/pkg/apis/proxy/v1alpha1"
 	"github.com/kubewharf/kubegateway/pkg/ratelimiter/util"
+
+	gatewayfake "github.com/kubewharf/kubegateway/pkg/client/kubernetes/fake"
 
 	"verifharness/bed"
 	"verifharness/vkit"
@@ -84,6 +87,9 @@ func TestCheck(t *testing.T) {
 			"too few dead instances reclaimed on a server that leads only some shards, with condition names hashing to the other shards")
 		r.Require(r.Counter("histories_with_realistic_identities") >= 100 && r.Counter("instances_with_colon_in_identity") >= 300 && r.Counter("identity_pairs_differing_by_colon_vs_dash") >= 50,
 			"too few instances with realistic identities (ip:port, IPv6, pairs differing by ':' vs '-')")
+		r.Require(r.Counter("passes_with_live_traffic") >= 500 && r.Counter("live_checks_of_instances_with_traffic_during_the_pass") >= 800, "too few cleanup passes with live instances reporting meanwhile")
+		r.Require(r.Counter("histories_with_api_backed_store") >= 100 && r.Counter("reclaimed_checked_in_the_api") >= 200 && r.Counter("api_store_leader_restarts") >= 100, "the API-backed store variant observed too little")
+		r.Require(r.Counter("upstreams_deleted_and_recreated") >= 50 && r.Counter("instances_with_identity_longer_than_63") >= 50, "too few upstream deletions / long identities")
 		r.Require(r.Counter("histories") >= 100, "too few histories")
 		r.Require(r.Counter("reclaimed_with_conditions") >= 100 && r.Counter("reclaimed_with_counts") >= 100, "too few dead instances with recorded state were reclaimed")
 		r.Require(r.Counter("reclaimed_first_report_only") >= 20, "the empty-label (first report only) case was not exercised")
@@ -129,14 +135,21 @@ type history struct {
 	nontrivial bool
 	led        map[int]bool // shards this server leads (all of them unless partial)
 	partial    bool         // the other shards are led by "other-server"
-	realIDs    bool         // realistic identities (see identity)
-	twin       string       // identity the next joining instance takes
-	realtime   bool         // silences are real (no heartbeat for > 3 s of wall time) instead of a back-dated heartbeat
+	mu         sync.Mutex   // trace (live instances report while a pass runs)
+	k8s        bool         // API-backed store (write-through) over a fake clientset
+	api        *gatewayfake.Clientset
+	realIDs    bool   // realistic identities (see identity)
+	twin       string // identity the next joining instance takes
+	realtime   bool   // silences are real (no heartbeat for > 3 s of wall time) instead of a back-dated heartbeat
 }
 
 var watchdogFired int32
 
-func (h *history) logf(f string, a ...interface{}) { h.trace = append(h.trace, fmt.Sprintf(f, a...)) }
+func (h *history) logf(f string, a ...interface{}) {
+	h.mu.Lock()
+	h.trace = append(h.trace, fmt.Sprintf(f, a...))
+	h.mu.Unlock()
+}
 
 func (h *history) witness() map[string]interface{} {
 	tr := h.trace
@@ -177,7 +190,13 @@ func newHistory(r *vkit.R, g *vkit.Rand, i int) *history {
 		}
 		r.Count("histories_leading_some_shards_only", 1)
 	} else {
-		h.srv = bed.NewLimiterServer(bed.LimiterOptions{LeadAll: true, Shards: 1 + i%3})
+		o := bed.LimiterOptions{LeadAll: true, Shards: 1 + i%3}
+		if i%5 == 2 { // the API-backed store (every save and delete goes to the API first), over a fake clientset
+			h.k8s, h.api = true, gatewayfake.NewSimpleClientset()
+			o.Store, o.GatewayClient = "k8s", h.api
+			r.Count("histories_with_api_backed_store", 1)
+		}
+		h.srv = bed.NewLimiterServer(o)
 		for sh := 0; sh < h.srv.Shards; sh++ {
 			h.led[sh] = true
 		}
@@ -351,6 +370,148 @@ func (h *history) foreignName(up, id string) bool {
 	return h.partial && !h.led[util.GetShardID(util.GenerateRateLimitConditionName(up, id), h.srv.Shards)]
 }
 
+// touched: what a live instance reported on while a pass ran.
+type touched struct {
+	ups  map[string]bool
+	keys map[string]bool
+}
+
+// withTraffic runs a cleanup pass; in a third of the cases up to three LIVE instances (already heartbeating before the pass,
+// heartbeat fresh) keep reporting and acquiring while it runs - each from its own goroutine, its operations drawn beforehand.
+func (h *history) withTraffic(pass func()) map[string]*touched {
+	var live []*inst
+	for _, w := range h.insts {
+		if w.live {
+			live = append(live, w)
+		}
+	}
+	if len(live) == 0 || !h.g.Chance(0.33) {
+		pass()
+		return nil
+	}
+	busy := map[string]*touched{}
+	var jobs [][]func()
+	for _, idx := range h.g.Perm(len(live)) {
+		if len(jobs) == 3 {
+			break
+		}
+		w := live[idx]
+		t := &touched{ups: map[string]bool{}, keys: map[string]bool{}}
+		busy[w.id] = t
+		var ops []func()
+		for k, n := 0, h.g.Range(2, 4); k < n; k++ {
+			up := h.ups[h.g.Intn(len(h.ups))]
+			if w.acquireOnly || h.g.Bool() {
+				key := h.cnts[up][h.g.Intn(len(h.cnts[up]))]
+				cnt := int32(h.g.Range(0, int(h.countMax[key])/2+1))
+				t.keys[key] = true
+				ops = append(ops, func() { h.acquire(w, key, cnt) })
+			} else {
+				frac := h.g.Float()
+				t.ups[up] = true
+				ops = append(ops, func() { h.reportU(w, up, frac) })
+			}
+		}
+		jobs = append(jobs, ops)
+	}
+	h.logf("the next pass runs while %d live instance(s) keep reporting", len(jobs))
+	h.r.Count("passes_with_live_traffic", 1)
+	start := make(chan struct{})
+	var wg sync.WaitGroup
+	for _, ops := range jobs {
+		wg.Add(1)
+		go func(ops []func()) {
+			defer wg.Done()
+			<-start
+			for _, op := range ops {
+				op()
+			}
+		}(ops)
+	}
+	wg.Add(1)
+	go func() {
+		defer wg.Done()
+		<-start
+		pass()
+	}()
+	close(start)
+	wg.Wait()
+	return busy
+}
+
+// apiLeftovers: with the API-backed store, the condition objects of the instance that are still in the API.
+func (h *history) apiLeftovers(id string) []string {
+	if !h.k8s {
+		return nil
+	}
+	l, err := h.api.ProxyV1alpha1().RateLimitConditions().List(context.Background(), metav1.ListOptions{})
+	if err != nil {
+		return nil
+	}
+	var out []string
+	for _, c := range l.Items {
+		if c.Spec.Instance == id {
+			out = append(out, c.Name)
+		}
+	}
+	return out
+}
+
+// removeAndRecreateUpstream: an upstream cluster is deleted (with everything recorded for it), the cleanup passes run, and the
+// cluster comes back under the same name: it starts empty, and the live instances' state for the OTHER upstreams is untouched
+// (the passes check that).
+func (h *history) removeAndRecreateUpstream() {
+	if len(h.ups) < 2 {
+		return
+	}
+	k := h.g.Intn(len(h.ups))
+	up := h.ups[k]
+	o, ok := h.srv.Upstream.Get(up)
+	if !ok {
+		return
+	}
+	if err := h.srv.DeleteUpstream(up); err != nil {
+		h.r.Count("call_errors", 1)
+	}
+	h.ups = append(h.ups[:k:k], h.ups[k+1:]...)
+	for _, w := range h.insts {
+		delete(w.quota, up)
+		delete(w.reports, up)
+		for _, key := range h.cnts[up] {
+			delete(w.count, key)
+		}
+	}
+	h.logf("upstream %s deleted", up)
+	h.r.Count("upstreams_deleted_and_recreated", 1)
+	h.passTimeout()
+	if !h.dead {
+		h.passUnknown()
+	}
+	if h.dead {
+		return
+	}
+	if err := h.srv.ApplyUpstream(o); err != nil {
+		h.r.Count("call_errors", 1)
+	}
+	h.ups = append(h.ups, up)
+	s := h.snap()
+	for id, m := range s.cond {
+		if _, ok := m[up]; ok {
+			h.violate("C18/upstream-recreated/condition-survived", fmt.Sprintf("upstream %s was deleted and created again; a condition of instance %s recorded before the deletion is on record again", up, id))
+			return
+		}
+	}
+	for id, m := range s.count {
+		for _, key := range h.cnts[up] {
+			if c := m[key]; c != 0 {
+				h.violate("C18/upstream-recreated/count-survived", fmt.Sprintf("upstream %s was deleted and created again; instance %s is listed with %d in flight on %s from before the deletion", up, id, c, key))
+				return
+			}
+		}
+	}
+	h.logf("upstream %s created again (empty)", up)
+}
+
 // ---- operations
 
 // identity: plain gw-N, or (realIDs histories) what gateways really look like: ip:port and IPv6 prefixes, dots, dashes, upper
@@ -369,7 +530,12 @@ func (h *history) identity() (id string, acquireOnly bool) {
 		h.r.Count("identity_pairs_differing_by_colon_vs_dash", 1)
 		return id, true
 	}
-	switch h.g.Intn(8) {
+	switch h.g.Intn(10) {
+	case 8:
+		h.r.Count("instances_with_identity_longer_than_63", 1)
+		return fmt.Sprintf("%s-%d", strings.Repeat("very-long-prefix.", 5), n), false // > 63 characters: not a label value either
+	case 9:
+		return fmt.Sprintf("gw-é中-%d", n), false
 	case 0:
 		return fmt.Sprintf("10.0.%d.7:6443-ab%d", n, n), false
 	case 1:
@@ -405,6 +571,11 @@ func (h *history) report(w *inst, up string) {
 		h.acquire(w, key, int32(h.g.Range(0, int(h.countMax[key])/2+1)))
 		return
 	}
+	h.reportU(w, up, h.g.Float())
+}
+
+// reportU is report with the random choice made by the caller (so that it can run in a goroutine of its own).
+func (h *history) reportU(w *inst, up string, frac float64) {
 	cond := &proxyv1alpha1.RateLimitCondition{
 		ObjectMeta: metav1.ObjectMeta{Name: util.GenerateRateLimitConditionName(up, w.id)},
 		Spec:       proxyv1alpha1.RateLimitSpec{UpstreamCluster: up, Instance: w.id},
@@ -414,7 +585,7 @@ func (h *history) report(w *inst, up string) {
 	used := int32(0)
 	if q, ok := w.quota[up]; ok && q > 0 {
 		cfg.MaxRequestsInflight = &proxyv1alpha1.MaxRequestsInflightFlowControlSchema{Max: q}
-		used = int32(h.g.Range(0, int(q)))
+		used = int32(frac * float64(q))
 		st.RequestLevel = int32(float64(used) / float64(q) * 100)
 	}
 	st.MaxRequestsInflight = &proxyv1alpha1.MaxRequestsInflightFlowControlSchema{Max: used}
@@ -500,9 +671,28 @@ func (h *history) heartbeatLive() {
 }
 
 // checkLive: the recorded state of every live instance is what it was before the pass.
-func (h *history) checkLive(pass string, before, after snapshot) {
+func (h *history) checkLive(pass string, before, after snapshot, busy map[string]*touched) {
 	for _, w := range h.insts {
 		if !w.live {
+			continue
+		}
+		if t := busy[w.id]; t != nil {
+			// the instance reported / acquired WHILE the pass ran: what it was last answered is what must be on record
+			h.r.Count("live_checks_of_instances_with_traffic_during_the_pass", 1)
+			for up := range t.ups {
+				if got, ok := after.cond[w.id][up]; !ok || got != w.quota[up] {
+					h.violate("C18/live-instance/condition-removed/"+pass+"/traffic-during-pass",
+						fmt.Sprintf("instance %s heartbeats and reported to %s while the %s pass ran (answered quota %d); after the pass the record is %v (present=%v)", w.id, up, pass, w.quota[up], got, ok))
+					return
+				}
+			}
+			for key := range t.keys {
+				if got, ok := after.count[w.id][key]; (!ok && w.count[key] != 0) || (ok && got != int64(w.count[key])) {
+					h.violate("C18/live-instance/count-removed/"+pass+"/traffic-during-pass",
+						fmt.Sprintf("instance %s heartbeats and reported %d in flight on %s while the %s pass ran; after the pass it is %d (present=%v)", w.id, w.count[key], key, pass, got, ok))
+					return
+				}
+			}
 			continue
 		}
 		if len(before.cond[w.id]) > 0 || len(before.count[w.id]) > 0 {
@@ -547,7 +737,7 @@ func (h *history) passTimeout() {
 			expiring = append(expiring, w)
 		}
 	}
-	h.srv.Handle.CleanupTimeoutClient()
+	busy := h.withTraffic(func() { h.srv.Handle.CleanupTimeoutClient() })
 	h.r.Count("timeout_passes", 1)
 	// the deletion goroutine has nothing to wait for; poll for its effects (labelled conditions and counts of the expiring
 	// instances gone). A watchdog expiry is not a verdict here: what is still there after BOTH kinds of pass is judged.
@@ -590,14 +780,14 @@ func (h *history) passTimeout() {
 			break
 		}
 	}
-	h.checkLive(pass, before, h.snap())
+	h.checkLive(pass, before, h.snap(), busy)
 }
 
 // passUnknown runs cleanupUnknownCondition (synchronous) and judges the instances that are dead by now.
 func (h *history) passUnknown() {
 	h.heartbeatLive()
 	before := h.snap()
-	h.srv.Handle.CleanupUnknownCondition()
+	busy := h.withTraffic(func() { h.srv.Handle.CleanupUnknownCondition() })
 	h.r.Count("unknown_passes", 1)
 	after := h.snap()
 	h.logf("unknown-condition pass")
@@ -605,7 +795,7 @@ func (h *history) passUnknown() {
 		h.violate("C18/shards/store-set-changed-by-cleanup", fmt.Sprintf("the server leads shards %v but has stores for shards %v after the cleanup passes", h.led, got))
 		return
 	}
-	h.checkLive("unknown-condition", before, after)
+	h.checkLive("unknown-condition", before, after, busy)
 	if h.dead {
 		return
 	}
@@ -682,6 +872,13 @@ func (h *history) passUnknown() {
 			if h.foreignName(up, w.id) {
 				h.r.Count("reclaimed_conditions_whose_name_hashes_to_a_shard_not_led", 1)
 			}
+		}
+		if left := h.apiLeftovers(w.id); len(left) > 0 {
+			h.violate("C18/dead-instance/condition-kept/in-the-api", fmt.Sprintf("instance %s is dead and gone from the server's store, but the API-backed store left its condition object(s) %v in the API (they are loaded again by the next leader of the shard)", w.id, left))
+			return
+		}
+		if h.k8s {
+			h.r.Count("reclaimed_checked_in_the_api", 1)
 		}
 		h.r.Count("reclaimed", 1)
 		h.logf("  %s is dead and fully reclaimed", w.id)
@@ -785,6 +982,8 @@ func (h *history) run() {
 			h.passUnknown()
 		case x < 91 && len(silent) > 0:
 			h.comeBack(silent[h.g.Intn(len(silent))])
+		case x < 93 && len(h.ups) > 1 && !h.realtime:
+			h.removeAndRecreateUpstream()
 		case x < 96 && len(h.insts) < 7:
 			w := h.join()
 			if len(h.trace) > 0 && h.g.Bool() {
@@ -805,6 +1004,26 @@ func (h *history) run() {
 	}
 	if !h.dead {
 		h.passUnknown()
+	}
+	if !h.dead && h.k8s {
+		// the shard changes hands and comes back: the new store loads what the API holds - nothing of a reclaimed instance
+		known := map[string]bool{}
+		for _, w := range h.insts {
+			known[w.id] = true
+		}
+		for sh := range h.led {
+			h.srv.Elector.Lose(sh, "")
+			h.srv.Elector.Gain(sh)
+		}
+		h.r.Count("api_store_leader_restarts", 1)
+		s := h.snap()
+		for id := range s.cond {
+			if !known[id] && id != "" {
+				h.violate("C18/dead-instance/condition-kept/reloaded-after-leader-restart", fmt.Sprintf("after the shard changed hands and came back, the store loaded from the API holds a condition of instance %s, which had been reclaimed", id))
+				return
+			}
+		}
+		h.logf("leadership lost and regained; the store re-loaded from the API holds no reclaimed instance")
 	}
 }
 
